@@ -10,10 +10,24 @@
      (A)  every execution has at most [total N D g] further steps - no fairness needed;
      (B)  wherever an execution stops, every goroutine of the transfer has exited.
    [io_assumptions io_ret true]: a wire read returns (data | stop | timeout, the configured
-   Timeout being positive), wire writes, file operations and the pause gate return. *)
+   Timeout being positive), wire writes, file operations and the pause gate return.
+
+   Every fault reaches ctx.cancel.  The translator ties the error path of every operation that
+   can fail to the operation: [IoE k h] = operation of kind k (wire read / wire write / pause
+   gate / file / Check = codec, parsing or consistency test of the stage itself) with what the
+   goroutine does when it failed.  [faults_cancel N]: on every path through every such h the
+   goroutine calls ctx.cancel before it leaves (arms guarded by ctx.Done() excepted: they need
+   a cancelled context), and no operation of the table is left without an error path.
+   [fault_follows N]: from any reachable state in which an operation of goroutine p fails
+   (step g_ioe_fail), along EVERY execution, (a) until the context is cancelled p has not left
+   and has taken fewer than |h| + 2 steps of its own; (b) if h waits for nobody, p can move in
+   every state until then, p ALONE (a run of its own steps only, at most |h| + 2 of them) reaches
+   a cancelled state from every later state, and an execution can only stop with the context
+   cancelled and every goroutine exited; (c) once cancelled, theorems A + B apply. *)
 From Coq Require Import List Arith Bool.
 Import ListNotations.
-From Trzsz Require Import Model.Proc Proofs.Proc Proofs.ProcInst Gen.Skel_pipeline.
+From Trzsz Require Import Model.Proc Model.ProcFault Proofs.Proc Proofs.ProcFault Proofs.ProcInst Gen.Skel_pipeline.
+From Trzsz Require Import Model.ErrTell Proofs.ErrTell Gen.Skel_errtell Gen.Skel_errcallers.
 
 Definition terminates_after_cancel (N : net) : Prop :=
   forall D io_ret, io_assumptions io_ret true ->
@@ -77,6 +91,119 @@ Proof.
 Qed.
 Print Assumptions C11_no_success_unless.
 
+(* ---- every fault reaches ctx.cancel ---- *)
+Definition fault_follows (N : net) : Prop :=
+  forall D io_ret, io_assumptions io_ret true ->
+  forall g p f kd h k, reach N D io_ret g -> procs g p = Running f (IStmt (IoE kd h) :: k) ->
+  let g1 := cont g p f (lift h ++ k) in
+  lstep N D io_ret p g g1 /\
+  cc false (qx N p f) false h = true /\
+  forall tr g2, lsteps N D io_ret tr g1 g2 ->
+    (cancelled g2 = true \/ (count_occ Nat.eq_dec tr p < cmL h + 2 /\ procs g2 p <> Exited)) /\
+    (cc true (qx N p f) false h = true ->
+       (cancelled g2 = true \/ enabled N D io_ret p g2) /\
+       (exists tr' g3, lsteps N D io_ret tr' g2 g3 /\ cancelled g3 = true /\ Forall (eq p) tr' /\
+                       List.length tr' <= cmL h + 2) /\
+       (stuck N D io_ret g2 -> cancelled g2 = true /\ forall q, procs g2 q = Exited)) /\
+    (cancelled g2 = true ->
+       (forall n g3, steps N D io_ret n g2 g3 -> n <= total N D g2) /\
+       (forall n g3, steps N D io_ret n g2 g3 -> stuck N D io_ret g3 -> forall q, procs g3 q = Exited)).
+
+(* generic: A + B + "the error path of every operation cancels" *)
+Theorem C11_fault_terminates_generic : forall N, wf N = true -> faults_cancel N = true -> fault_follows N.
+Proof. exact fault_terminates. Qed.
+Print Assumptions C11_fault_terminates_generic.
+
+(* the three generated nets: no operation without an error path, every error path cancels *)
+Theorem C11_faults_cancel :
+  faults_cancel send_net = true /\ faults_cancel recv_net = true /\ faults_cancel hash_net = true.
+Proof. exact (conj send_faults_cancel (conj recv_faults_cancel hash_faults_cancel)). Qed.
+Print Assumptions C11_faults_cancel.
+
+Theorem C11_fault_terminates : fault_follows send_net /\ fault_follows recv_net /\ fault_follows hash_net.
+Proof.
+  exact (conj (fault_terminates send_net send_net_wf send_faults_cancel)
+        (conj (fault_terminates recv_net recv_net_wf recv_faults_cancel)
+              (fault_terminates hash_net hash_net_wf hash_faults_cancel))).
+Qed.
+Print Assumptions C11_fault_terminates.
+
+(* part (b) needs an error path that waits for nobody.  All have one, except two: the file
+   reader of the sender (file.Read) and the decoder of the receiver (reader.Read through the
+   codec stack): a Read that fails after delivering bytes (n > 0 && err != nil) first hands
+   those bytes to the next stages (two selects with a ctx.Done() arm) and only then cancels.
+   For those paths (a) and (c) hold; that the hand-over cannot block for ever is "no deadlock
+   without a fault", which is not proved (DESIGN section 5, Limits). *)
+Definition C11_fault_terminates_full : Prop :=
+  forall N, In N [send_net; recv_net; hash_net] -> fault_waits N = [].
+Theorem C11_fault_waits_partial :
+  fault_waits send_net = [(p_send_ReadData, FileIO)] /\ fault_waits recv_net = [(p_recv_DecodeData, Check)] /\
+  fault_waits hash_net = [].
+Proof. exact (conj send_fault_waits (conj recv_fault_waits hash_fault_waits)). Qed.
+Print Assumptions C11_fault_waits_partial.
+
+(* the main functions' own exits: `defer ctx.cancel(nil)`.  Whenever sendFileDataV2,
+   recvFileDataV2 or sendPrefixHash has returned, the context is cancelled (so by A + B all its
+   workers leave); what they do before the context exists is only operations and returns *)
+Theorem C11_main_exit_cancels :
+  (forall D io_ret g, reach send_net D io_ret g -> procs g p_send_main = Exited -> cancelled g = true) /\
+  (forall D io_ret g, reach recv_net D io_ret g -> procs g p_recv_main = Exited -> cancelled g = true) /\
+  (forall D io_ret g, reach hash_net D io_ret g -> procs g p_hash_main = Exited -> cancelled g = true) /\
+  quietL send_main_prelude = true /\ quietL recv_main_prelude = true /\ quietL hash_main_prelude = true.
+Proof. exact main_exits_cancel. Qed.
+Print Assumptions C11_main_exit_cancels.
+
+(* recvFileDataV2 waits for the saver's own size check before it reports a file as received
+   (`<-saveDone`, then `if ctx.Err() != nil`): a wait for a channel that only the saver's exit
+   closes, in the arm that received the success signal; wf (W3) covers it, so A + B hold *)
+Theorem C11_recv_waits_for_saver :
+  capof recv_net ch_recv_SaveData_1 = 0 /\ sender recv_net ch_recv_SaveData_1 = None /\
+  existsb (Nat.eqb ch_recv_SaveData_1) (defer_close (info recv_net p_recv_SaveData)) = true /\
+  closer_ok recv_net p_recv_main ch_recv_SaveData_1 = true /\
+  count (is_recvclose ch_recv_SaveData_1) (all_stmts (info recv_net p_recv_main)) = 1 /\
+  underL ch_recv_recvFileDataV2_0 ch_recv_SaveData_1 (body (info recv_net p_recv_main)) = true /\
+  body (info recv_net p_recv_main) =
+    [ Sel [ (RecvAlt ch_recv_recvFileDataV2_0,
+             [ RecvClose ch_recv_SaveData_1; IfCtxExit; RecvClose ch_recv_CalculateMD5_0; Return ]);
+            (DoneAlt, [ Return ]) ] ].
+Proof. exact recv_main_waits_for_saver. Qed.
+Print Assumptions C11_recv_waits_for_saver.
+
+(* ---- a side that can still talk tells its peer why ---- *)
+(* transfer.go clientError / serverError, interpreted from their REGENERATED skeletons
+   (Gen/Skel_errtell.v), for EVERY error class [e] (is it a *trzszError, its errType class, its
+   trace flag, is its text that of errStoppedAndDeleted) and environment [env] (the transfer's
+   stopAndDelete flag, did deleteCreatedFiles delete anything):
+   * the skeleton is fully understood, cleanInput comes first;
+   * the lines sent are exactly [et_client_sends e env] / [et_server_sends e env]: none when the
+     error IS the peer's EXIT / fail / FAIL line, otherwise one: `fail` with the deleted names
+     after a stop-and-delete that deleted something (client), else `FAIL` or `fail` by the
+     traceback flag;
+   * the server resets the terminal (serverExit) exactly once, last; the client never. *)
+Theorem C11_tells_peer : tells_peer_stmt errtell_preds errtell_clientError errtell_serverError.
+Proof. exact tells_peer. Qed.
+Print Assumptions C11_tells_peer.
+
+Theorem C11_tells_peer_one_line : forall e env, et_victim e = false ->
+  (exists w n, et_sends (fst (et_run errtell_preds errtell_clientError e env)) = [ASend w n] /\ (w = WFail \/ w = WFAIL)) /\
+  (exists w, et_sends (fst (et_run errtell_preds errtell_serverError e env)) = [ASend w false] /\ (w = WFail \/ w = WFAIL)).
+Proof. exact not_victim_sends_one. Qed.
+Print Assumptions C11_tells_peer_one_line.
+
+Theorem C11_victim_sends_nothing : forall e env, et_victim e = true ->
+  et_sends (fst (et_run errtell_preds errtell_clientError e env)) = [] /\
+  et_sends (fst (et_run errtell_preds errtell_serverError e env)) = [].
+Proof. exact victim_sends_nothing. Qed.
+Print Assumptions C11_victim_sends_nothing.
+
+(* the callers: handleTrzsz's goroutine hands every non-nil result of downloadFiles /
+   uploadFiles and every recovered panic to clientError; the goroutines of TrzMain / TszMain
+   hand every non-nil result of recvFiles / sendFiles to serverError (their recover is deferred
+   in the function, not in the goroutine that runs the transfer) *)
+Theorem C11_error_callers : errtell_callers = expected_callers.
+Proof. exact callers_pinned. Qed.
+Print Assumptions C11_error_callers.
+
 (* ---- the hypotheses are satisfiable and the bound is concrete ---- *)
 Example C11_io_assumptions_sat : io_assumptions (fun k => match k with Unknown => false | _ => true end) true.
 Proof. repeat split; reflexivity. Qed.
@@ -86,18 +213,50 @@ Proof. repeat split; reflexivity. Qed.
 Example C11_recv_bound_D4 : Nat.leb (total recv_net 4 (init recv_net)) 200 = true.
 Proof. vm_compute. reflexivity. Qed.
 
-(* a reachable cancelled state of the hash net: the hasher cancels after a read error *)
+(* a reachable cancelled state of the hash net: the hasher's file read fails, it cancels *)
 Example C11_nonvacuous :
   exists g, reach hash_net 1 (fun _ => true) g /\ cancelled g = true /\ Nat.leb (total hash_net 1 g) 100 = true.
 Proof.
   eexists. split; [|split].
-  - eapply reach_step. eapply reach_step. eapply reach_step. eapply reach_step. eapply reach_step.
+  - eapply reach_step. eapply reach_step. eapply reach_step. eapply reach_step.
     apply reach_init.
-    + eapply (g_loopctx _ _ _ _ p_hash_SendHash). reflexivity.
-    + eapply (g_headctx_in _ _ _ _ p_hash_SendHash); reflexivity.
-    + eapply (g_io _ _ _ _ p_hash_SendHash); reflexivity.
-    + eapply (g_branch_l _ _ _ _ p_hash_SendHash). reflexivity.
-    + eapply (g_cancel _ _ _ _ p_hash_SendHash). reflexivity.
+    + exists p_hash_SendHash. eapply g_loopctx. reflexivity.
+    + exists p_hash_SendHash. eapply g_headctx_in; reflexivity.
+    + exists p_hash_SendHash. eapply g_ioe_fail; reflexivity.
+    + exists p_hash_SendHash. eapply g_cancel. reflexivity.
   - reflexivity.
   - vm_compute. reflexivity.
 Qed.
+
+(* the premise of fault_follows is met: a reachable state of the hash net in which the
+   hasher is about to read the file (the operation that then fails) *)
+Example C11_fault_nonvacuous :
+  exists g h k, reach hash_net 1 (fun _ => true) g /\
+    procs g p_hash_SendHash = Running false (IStmt (IoE FileIO h) :: k) /\ cc true false false h = true.
+Proof.
+  eexists. eexists. eexists. split; [|split].
+  - eapply reach_step. eapply reach_step. apply reach_init.
+    + exists p_hash_SendHash. eapply g_loopctx. reflexivity.
+    + exists p_hash_SendHash. eapply g_headctx_in; reflexivity.
+  - reflexivity.
+  - reflexivity.
+Qed.
+
+(* a read timeout (simpleTrzszError: errType "", no traceback): both sides send `fail`; a panic
+   converted by the callers (errType "panic", traceback): `FAIL`; the peer's own fail line: nothing *)
+Example C11_tells_timeout :
+  let e := {| et_trz := true; et_typ := EtNone; et_trace := false; et_sad := false |} in
+  let v := {| et_flag := false; et_deleted := false |} in
+  fst (et_run errtell_preds errtell_clientError e v) = [AClean; ASend WFail false] /\
+  fst (et_run errtell_preds errtell_serverError e v) = [AClean; ASend WFail false; AExit false].
+Proof. vm_compute. split; reflexivity. Qed.
+Example C11_tells_panic :
+  let e := {| et_trz := true; et_typ := EtOther; et_trace := true; et_sad := false |} in
+  let v := {| et_flag := false; et_deleted := false |} in
+  fst (et_run errtell_preds errtell_clientError e v) = [AClean; ASend WFAIL false].
+Proof. vm_compute. reflexivity. Qed.
+Example C11_tells_stop_and_delete :
+  let e := {| et_trz := true; et_typ := EtNone; et_trace := false; et_sad := true |} in
+  let v := {| et_flag := true; et_deleted := true |} in
+  fst (et_run errtell_preds errtell_clientError e v) = [AClean; ADelete; ASend WFail true].
+Proof. vm_compute. reflexivity. Qed.
